@@ -1400,6 +1400,12 @@ class _Run(object):
                         bcs = [e for e in _ST.log if e.get('m') == 'blockcount']
                         bc_failed = getattr(self, '_side_fail', False) or \
                             (bool(bcs) and bcs[-1].get('beh') != 'ok')     # (an 'empty' block count is 0: no answer)
+                        # (with several providers per query the 'empty' answer 0 of one of them can be the one the
+                        # library adopts although another one answered: the zero block count it then works with is
+                        # visible in the object itself)
+                        if not bc_failed and any(e.get('beh') != 'ok' for e in bcs) and \
+                                not getattr(self.srv, '_blockcount', None):
+                            bc_failed = True
                         self.disc('cache.gettransactions.truncated', '%s answered from the cache alone with %r although '
                                   'the confirmed history goes on: %r (limit %d); no provider was asked%s' %
                                   (what, got, conf, lim, ' (the last block count request had failed: the library works '
@@ -1457,7 +1463,10 @@ class _Run(object):
             if got != want_txs:
                 self.disc('cache.getblock.tx-differs', '%s: cached block lists transactions %r, the first page of '
                           'the stored block is %r' % (what, got, want_txs),
-                          kf=F_ORDER if (None not in got and sorted(got) == sorted(want_txs)) else None)
+                          # (the recorded order finding as it shows on a PAGE: transactions of this block, no
+                          # duplicates, as many as the page holds - a slice of the block in another order)
+                          kf=F_ORDER if (None not in got and len(set(got)) == len(got) == len(want_txs) and
+                                         set(got) <= set(U.block_txs)) else None)
                 return
             if a.get('parse'):
                 for t, n in zip(txs, got):
